@@ -26,6 +26,10 @@ class FaultyFile(io.TextIOBase):
         self.nwrite += 1
         self.log.append(("write", len(s)))
         if self.fail_at is not None and self.nwrite == self.fail_at:
+            if self.bare == "DumpError":  # the library's own error type raised by the writing step
+                from iodata.utils import DumpError
+
+                raise DumpError("injected failure while writing", self.name)
             if self.bare:
                 raise OSError  # an exception without arguments (args == ())
             raise OSError(errno.ENOSPC, "No space left on device (injected)")
@@ -52,6 +56,7 @@ class OpenPatch:
         self.fail_at = fail_at
         self.bare = bare
         self.files = []
+        self.left_open = []
         self.log = []
 
     def __enter__(self):
@@ -77,6 +82,7 @@ class OpenPatch:
             self._api.open = self._old
         else:
             del self._api.open
-        for f in self.files:
-            if not f.closed:
-                f._real.close()
+        # what the code under test left open is remembered for the oracle, then cleaned up
+        self.left_open = [f for f in self.files if not f.closed]
+        for f in self.left_open:
+            f._real.close()
